@@ -164,6 +164,17 @@ UNITS = {
              'find': 'let end = if rv < 0 {\n            self.data.len()', 'replace': 'let end = if rv < 0 {\n            self.position'},
         ],
     },
+    'v_cont': {
+        'tpl': 'units/v_cont.rs.tpl', 'rlimit': 60,
+        'mutants': [
+            {'name': 'run keeps the class of the previous character only (not the running intersection)', 'file': 'sudachi/src/input_text/buffer/mod.rs',
+             'find': '                cat = common;\n                end += 1;', 'replace': '                cat = self.mod_cat[end];\n                end += 1;'},
+            {'name': 'continuity counts from the run start', 'file': 'sudachi/src/input_text/buffer/mod.rs',
+             'find': 'self.mod_cat_continuity[i] = end - i;', 'replace': 'self.mod_cat_continuity[i] = end - start;'},
+            {'name': 'runs overlap by one character', 'file': 'sudachi/src/input_text/buffer/mod.rs',
+             'find': '            start = end;\n', 'replace': '            start = if end - start > 1 { end - 1 } else { end };\n'},
+        ],
+    },
 }
 
 NOT_APPLICABLE = {
@@ -173,6 +184,13 @@ for _i in range(1, 21):
     NOT_APPLICABLE.setdefault('C%02d' % _i, 'not yet under contract in this revision of /verif (see DESIGN.md build order)')
 
 PROPS = {
+    'C13': {
+        'level_text': 'Verus proves on the real InputBuffer::fill_cat_continuity, for every sequence of class sets, that the stored continuity of every position is the distance to the end of its class run, where runs are cut left to right from the start of the text and a run is the maximal stretch whose characters keep a class in common (cont_ok / is_run / is_start), and that it never points past the text',
+        'level_note': 'so far only the class-run clause; the word-begin state machine (can_bow), MeCab/simple/regex OOV providers and CreatedWords are being brought under contract separately; character classes themselves are C17',
+        'verus': ['v_cont'],
+        'kani': [],
+        'assumptions': ['bitflags ops are u32 bit ops (R16)'],
+    },
     'C16': {
         'level_text': 'Verus proves (a) on the real SentenceIter::next, for every text and every answer of get_eos inside its envelope, that sentences are non-empty contiguous ranges on character boundaries equal to the text in their range, that the position strictly increases (termination) and that iteration ends exactly at the end of the text - the verified client all_sentences states the partition theorem; (b) on the real NonBreakChecker::has_non_break_word that a break candidate is vetoed iff some dictionary word starting in the 30-byte look-back window ends after it, or ends on it and has more than one character',
         'level_note': 'assumed: SentenceDetector::get_eos returns a negative value or an offset 0 < rv <= len on a character boundary (its body - which strings are terminators, brackets, quoting particles, itemisation headers - is built on fancy_regex and is NOT verified); dictionary lookup yields entries on character boundaries (valid UTF-8 keys); the converse clause "every unbracketed terminator ends a sentence" is decided only for the dictionary-veto part',
